@@ -21,6 +21,7 @@ PROPS = ["P1", "P2", "P3"]
 ELS = ["E1", "E2", "E3"]
 KINDS = ["Text", "Number", "Switch", "Light", "BLOB"]
 STATES = ["Idle", "Ok", "Busy", "Alert"]
+STAMPS = ["2026-01-01T00:00:00", "2026-01-01T00:00:00", "2026-01-01T00:00:01", "2025-12-31T23:59:59"]
 
 
 def _val(rng, kind, serial):
@@ -68,6 +69,8 @@ def gen_stream(rng, n, awkward=False, blob_unique=True):
                 if kind == "Light" and v is None:
                     v = "Ok"
                 kids.append({"tag": f"def{kind}", "attrs": ka, "text": v, "children": []})
+            if rng.random() < 0.5:
+                attrs.append(["timestamp", rng.choice(STAMPS)])
             out.append({"tag": f"def{kind}Vector", "attrs": attrs, "text": None, "children": kids, "awkward": False})
         elif r < 0.75:
             kind = rng.choice(KINDS)
@@ -116,6 +119,9 @@ def gen_stream(rng, n, awkward=False, blob_unique=True):
                     if kind == "Number" and v is None:
                         v = "1"
                     kids.append({"tag": f"one{kind}", "attrs": ka, "text": v, "children": []})
+            if rng.random() < 0.5:
+                # servers stamp their messages, often with one-second resolution: consecutive messages carry equal stamps
+                attrs.append(["timestamp", rng.choice(STAMPS)])
             out.append({"tag": f"set{kind}Vector", "attrs": attrs, "text": None, "children": kids, "awkward": awk})
         elif r < 0.88:
             attrs = [["device", rng.choice([dev, dev, "DZ"])]]
